@@ -944,7 +944,7 @@ func neverExpiresOnlyForNoLifetimeRule(r *Run, pkgs []string, floor int, consequ
 					if !ok || !isInt(st.Val.Type()) {
 						continue
 					}
-					if bo, isSum := stripValue(st.Val).(*ssa.BinOp); !isSum || bo.Op != token.ADD {
+					if dependsOn(st.Val, func(v ssa.Value) bool { bo, isSum := v.(*ssa.BinOp); return isSum && bo.Op == token.ADD }) == nil || func() bool { _, isPhi := stripValue(st.Val).(*ssa.Phi); return isPhi }() {
 						continue // a phi or a helper's answer: judged where it is computed (the phi / return forms above)
 					}
 					if dependsOn(st.Val, func(v ssa.Value) bool {
